@@ -109,3 +109,20 @@ Theorem C01_source_fast_path : forall m e0 start ptr l,
   = Ret (vopt (fast_ptr (actual m e0) start ptr l)).
 Proof. exact src_try_alloc_layout_fast_ok. Qed.
 Print Assumptions C01_source_fast_path.
+
+(* new_chunk as the source has it: the layout asked of the global allocator, the footer position,
+   the initial finger (the footer address rounded down to MIN_ALIGN) and the running total are the
+   fields of ArenaModel.new_chunk (c_foot = data + nswf, c_ptr = rdown (data + nswf) malign,
+   c_ab = ab_of b + nswf); the footer write and the allocator call are present as text *)
+Theorem C01_source_new_chunk : forall m data nswf size align ab a b c,
+  pow2 m -> m < W -> data + nswf < W -> ab + nswf < W ->
+  let en := List.app [("size", VN size); ("align", VN align); ("data", VN data);
+                      ("new_size_without_footer", VN nswf)] (cenv m) in
+  let args := [a; b; VRec [("allocated_bytes", VN ab)]] in
+  call_fn src_fns en "new_chunk_layout" [a; b; c]
+    = Ret (if layout_ok size align then vlayout (mkLayout size align) else VNone) /\
+  call_fn src_fns en "new_chunk_footer_at" [a; b; c] = Ret (VN (data + nswf)) /\
+  call_fn src_fns en "new_chunk_finger" [a; b; c] = Ret (VN (rdown (data + nswf) m)) /\
+  call_fn src_fns en "new_chunk_allocated_bytes" args = Ret (VN (ab + nswf)).
+Proof. exact src_new_chunk_ok. Qed.
+Print Assumptions C01_source_new_chunk.
